@@ -168,6 +168,22 @@ void dispatch_inner(Th *me) {
                 finish_run(0, me);
                 return;
             }
+            // a TIMED wait does promise to end: when nothing else can run, the one with the earliest deadline times out
+            Th *first = nullptr;
+            for (Th *t : g_threads)
+                if (!t->finished && t->pending == OP_CWAKE && t->timed && !t->woken && (!first || t->deadline_ms < first->deadline_ms)) first = t;
+            if (first) {
+                first->timedout = true;
+                first->woken = true;
+                if (first->deadline_ms >= g_clock_ms) g_clock_ms = first->deadline_ms + 1;
+                auto &ws = g_waiters[first->obj];
+                for (size_t i = 0; i < ws.size(); ++i)
+                    if (ws[i] == first->id) {
+                        ws.erase(ws.begin() + i);
+                        break;
+                    }
+                continue;
+            }
             // a waiter that could be woken spuriously does not count: POSIX allows but never
             // promises spurious wake-ups, so this is a deadlock.
             g_ctl->on_deadlock(vv);
